@@ -127,10 +127,11 @@ func (u unsupported) Error() string { return fmt.Sprintf("%s: %s", u.pos, u.msg)
 // ---------------------------------------------------------------- unit
 
 type fnInfo struct {
-	name    string // Lean name inside the unit's namespace
-	partial bool   // may panic: result is `Option …`
-	mutPtrs []int  // indexes (into params incl. receiver at 0) of pointer parameters written through
-	nres    int    // number of results kept (error results that are always nil are dropped)
+	name    string   // Lean name inside the unit's namespace
+	partial bool     // may panic: result is `Option …`
+	mutPtrs []int    // indexes (into params incl. receiver at 0) of pointer parameters written through
+	nres    int      // number of results kept (error results that are always nil are dropped)
+	hidden  []string // Lean types of the hidden slice tails the function takes as trailing parameters (notes/go2lean.md "Capacity")
 }
 
 type unitCtx struct {
@@ -142,6 +143,7 @@ type unitCtx struct {
 	structs map[*types.Named]string
 	out     []string // emitted declarations, in dependency order
 	vars    map[types.Object]string
+	imports map[string]bool // other units whose generated definitions this unit refers to (calls across packages)
 }
 
 func (u *unitCtx) fail(n ast.Node, f string, a ...any) {
@@ -358,6 +360,11 @@ type fnCtx struct {
 	flats   map[string]*flatVar   // outer variables / field paths, by Go source text
 	hasRet  bool
 	retType string
+	// capacity (notes/go2lean.md "Capacity"): hidden tails of slices, as extra parameters
+	hidden     []string          // "name : type" of the hidden parameters, in order of first use
+	hiddenType []string          // their Lean types
+	tails      map[string]string // slice operand (source text) → the hidden parameter that is its tail NOW
+	params     []types.Object    // the parameters of the function (receiver first)
 }
 
 func (c *fnCtx) fail(n ast.Node, f string, a ...any) { c.u.fail(n, f, a...) }
@@ -716,6 +723,11 @@ func (c *fnCtx) composite(x *ast.CompositeLit) string {
 			fs = append(fs, fmt.Sprintf("%s := %s", leanIdent(f.Name()), v))
 		}
 		return "({ " + strings.Join(fs, ", ") + " } : " + c.u.leanType(x, t) + ")"
+	case *types.Array:
+		// `[N]T{}`: the zero value of the array (an array literal with elements stays outside)
+		if len(x.Elts) == 0 {
+			return c.u.zero(x, t)
+		}
 	}
 	c.fail(x, "composite literal of type %s", t)
 	return ""
@@ -927,6 +939,124 @@ func (c *fnCtx) convert(n ast.Node, to, from types.Type, a string) string {
 	}
 }
 
+// externCall: a call of a function of ANOTHER package of the repository that is a `func` item of a unit of that package
+// becomes a reference to that unit's generated definition `Go.<unit>.<name>` (the generated file imports that unit's file;
+// the check that uses this unit must list the other unit's regeneration step as well). What is known about the callee —
+// its Lean name, whether it can panic — comes from translating it, in a loader of its own.
+func (c *fnCtx) externCall(x *ast.CallExpr, fn *types.Func, recv ast.Expr) (string, bool) {
+	u := c.u
+	if fn.Pkg() == nil || !strings.HasPrefix(fn.Pkg().Path(), u.l.modPath+"/") {
+		return "", false
+	}
+	rel := strings.TrimPrefix(fn.Pkg().Path(), u.l.modPath+"/")
+	full := fn.Name()
+	if r := fn.Type().(*types.Signature).Recv(); r != nil {
+		t := r.Type()
+		if p, ok := t.(*types.Pointer); ok {
+			t = p.Elem()
+		}
+		if n, ok := t.(*types.Named); ok {
+			full = n.Obj().Name() + "." + fn.Name()
+		}
+	}
+	for i := range units {
+		ou := &units[i]
+		if ou.Dir != rel || ou == u.unit {
+			continue
+		}
+		found := false
+		for _, it := range ou.Items {
+			if it.Kind == "func" && it.Name == full {
+				found = true
+			}
+		}
+		if !found {
+			continue
+		}
+		l2, err := newLoader(u.l.repo)
+		if err != nil {
+			c.fail(x, "call of %s.%s: %v", rel, full, err)
+		}
+		p2, err := l2.load(l2.modPath+"/"+ou.Dir, true)
+		if err != nil {
+			c.fail(x, "call of %s.%s: %v", rel, full, err)
+		}
+		u2 := &unitCtx{l: l2, p: p2, unit: ou, done: map[types.Object]*fnInfo{}, busy: map[types.Object]bool{},
+			structs: map[*types.Named]string{}, vars: map[types.Object]string{}, imports: map[string]bool{}}
+		fd := u2.lookupFunc(full)
+		if fd == nil {
+			c.fail(x, "call of %s.%s: not found in unit %s", rel, full, ou.Name)
+		}
+		fi := u2.function(fd, p2.info.Defs[fd.Name].(*types.Func))
+		if len(fi.mutPtrs) > 0 || len(fi.hidden) > 0 {
+			c.fail(x, "call of %s.%s across packages: the callee writes through a pointer or depends on a capacity", rel, full)
+		}
+		var args []string
+		if recv != nil {
+			args = append(args, c.argValue(recv))
+		}
+		for _, a := range x.Args {
+			args = append(args, c.argValue(a))
+		}
+		s := "Go." + ou.Name + "." + fi.name
+		for _, a := range args {
+			s += " " + a
+		}
+		if u.imports == nil {
+			u.imports = map[string]bool{}
+		}
+		u.imports[ou.Name] = true
+		if fi.partial {
+			c.part()
+			return "(← " + s + ")", true
+		}
+		return "(" + s + ")", true
+	}
+	return "", false
+}
+
+// natOf: an integer expression as a natural number (a negative value is a panic where Go panics on it: slice bounds, make)
+func (c *fnCtx) natOf(e ast.Expr) string {
+	s := c.expr(e)
+	_, signed, ok := intKind(c.info.TypeOf(e))
+	if !ok {
+		c.fail(e, "length of type %s", c.info.TypeOf(e))
+	}
+	if cv := c.info.Types[e].Value; cv != nil && !strings.HasPrefix(cv.ExactString(), "-") {
+		return cv.ExactString()
+	}
+	if signed {
+		c.part()
+		return fmt.Sprintf("(← Go.natOfInt %s)", s)
+	}
+	return s
+}
+
+// newHidden: a hidden parameter (the tail of a slice between its length and its capacity) of the function being translated
+func (c *fnCtx) newHidden(n ast.Node, base, leanType string) string {
+	if c.loop > 0 {
+		c.fail(n, "the capacity of a slice inside a loop (every iteration would need a hidden tail of its own)")
+	}
+	name := c.fresh(base)
+	c.hidden = append(c.hidden, fmt.Sprintf("(%s : %s)", name, leanType))
+	c.hiddenType = append(c.hiddenType, leanType)
+	return name
+}
+
+// tailFor: the hidden tail of the slice operand e as it is now (same operand text, nothing assigned since: same tail)
+func (c *fnCtx) tailFor(e ast.Expr) string {
+	key := exprText(c.u.l.fset, unparen(e))
+	if t, ok := c.tails[key]; ok {
+		return t
+	}
+	if c.tails == nil {
+		c.tails = map[string]string{}
+	}
+	t := c.newHidden(e, "tail", c.u.leanType(e, c.info.TypeOf(e)))
+	c.tails[key] = t
+	return t
+}
+
 // callee of a call expression within the package being translated: (function object, receiver expression or nil)
 func (c *fnCtx) callee(x *ast.CallExpr) (*types.Func, ast.Expr) {
 	switch f := unparen(x.Fun).(type) {
@@ -981,6 +1111,29 @@ func (c *fnCtx) call(x *ast.CallExpr) string {
 				return "(" + c.expr(x.Args[0]) + " ++ [" + strings.Join(items, ", ") + "])"
 			case "panic":
 				c.fail(x, "panic(...) as an expression")
+			case "make":
+				// make([]T, n) / make([]T, n, m): n zero values. A capacity beyond the length is not part of the slice value
+				// (whoever looks at it later takes the hidden tail as a parameter: "Capacity" in notes/go2lean.md)
+				st, ok := c.info.TypeOf(x).Underlying().(*types.Slice)
+				if !ok || len(x.Args) < 2 || len(x.Args) > 3 {
+					c.fail(x, "make of type %s (only make([]T, n) and make([]T, n, m) are in the subset)", c.info.TypeOf(x))
+				}
+				zero := c.u.zero(x, st.Elem())
+				n := c.natOf(x.Args[1])
+				if len(x.Args) == 2 {
+					return fmt.Sprintf("(List.replicate %s %s)", n, zero)
+				}
+				m := c.natOf(x.Args[2])
+				c.part()
+				return fmt.Sprintf("(← Go.make %s %s %s)", n, m, zero)
+			case "cap":
+				if _, ok := c.info.TypeOf(x.Args[0]).Underlying().(*types.Slice); !ok {
+					c.fail(x, "cap of type %s", c.info.TypeOf(x.Args[0]))
+				}
+				tail := c.tailFor(x.Args[0])
+				return fmt.Sprintf("(Go.capOf %s %s)", c.expr(x.Args[0]), tail)
+			case "copy":
+				c.fail(x, "copy(...) as an expression (its result is used); only the statement `copy(dst, src)` is in the subset")
 			}
 			c.fail(x, "builtin %s is outside the subset", id.Name)
 		}
@@ -993,7 +1146,10 @@ func (c *fnCtx) call(x *ast.CallExpr) string {
 		if s, ok := c.stdcall(x, fn); ok {
 			return s
 		}
-		c.fail(x, "call of %s.%s: function of another package", fn.Pkg().Path(), fn.Name())
+		if s, ok := c.externCall(x, fn, recv); ok {
+			return s
+		}
+		c.fail(x, "call of %s.%s: function of another package (and not a func item of a unit of that package)", fn.Pkg().Path(), fn.Name())
 	}
 	fi := c.u.function(x, fn)
 	if len(fi.mutPtrs) > 0 {
@@ -1018,6 +1174,14 @@ func (c *fnCtx) callText(x *ast.CallExpr, fn *types.Func, fi *fnInfo, recv ast.E
 	s := fi.name
 	for _, a := range args {
 		s += " " + a
+	}
+	// the callee looks at the capacity of slices: this function takes the hidden tails as parameters of its own and passes them on
+	// (one set per call site; inside a loop every iteration would need its own: refused)
+	for _, ht := range fi.hidden {
+		if c.loop > 0 {
+			c.fail(x, "call of %s, which depends on the capacity of a slice, inside a loop", fn.Name())
+		}
+		s += " " + c.newHidden(x, fn.Name()+"_tail", ht)
 	}
 	if fi.partial {
 		c.part()
@@ -1051,7 +1215,56 @@ func (c *fnCtx) stdcall(x *ast.CallExpr, fn *types.Func) (string, bool) {
 	case "bytes.Equal":
 		return "(" + c.expr(x.Args[0]) + " == " + c.expr(x.Args[1]) + ")", true
 	}
+	if s, ok := c.stdBinaryAppend(x, fn); ok {
+		return s, true
+	}
 	return "", false
+}
+
+// binary.LittleEndian.AppendUintN(b, v) / binary.BigEndian.AppendUintN(b, v), N = 16, 32, 64: `b ++ Go.leN v` / `b ++ Go.beN v`
+// (GoPrelude: the N/8 bytes of v, least / most significant first). Only when the receiver is exactly the package variable
+// binary.LittleEndian / binary.BigEndian (a value of the unexported types littleEndian / bigEndian); anything else of
+// encoding/binary stays outside the subset.
+func (c *fnCtx) stdBinaryAppend(x *ast.CallExpr, fn *types.Func) (string, bool) {
+	if fn.Pkg().Path() != "encoding/binary" {
+		return "", false
+	}
+	sel, ok := unparen(x.Fun).(*ast.SelectorExpr)
+	if !ok {
+		return "", false
+	}
+	rsel, ok := unparen(sel.X).(*ast.SelectorExpr)
+	if !ok {
+		return "", false
+	}
+	rv, ok := c.info.Uses[rsel.Sel].(*types.Var)
+	if !ok || rv.Pkg() == nil || rv.Pkg().Path() != "encoding/binary" || rv.Parent() != rv.Pkg().Scope() {
+		return "", false
+	}
+	var order string
+	switch rv.Name() {
+	case "LittleEndian":
+		order = "le"
+	case "BigEndian":
+		order = "be"
+	default:
+		return "", false
+	}
+	var width string
+	switch fn.Name() {
+	case "AppendUint16":
+		width = "16"
+	case "AppendUint32":
+		width = "32"
+	case "AppendUint64":
+		width = "64"
+	default:
+		return "", false
+	}
+	if len(x.Args) != 2 {
+		return "", false
+	}
+	return "(" + c.expr(x.Args[0]) + " ++ Go." + order + width + " " + c.argValue(x.Args[1]) + ")", true
 }
 
 // ---------------------------------------------------------------- package-level tables
